@@ -11,6 +11,9 @@ spec = importlib.util.spec_from_file_location("defs", os.path.join(HERE, "mutant
 defs = importlib.util.module_from_spec(spec)
 spec.loader.exec_module(defs)
 bad = 0
+import glob
+for old in glob.glob(os.path.join(HERE, "mutants", "C*", "*.patch")):
+    os.remove(old)
 for m in defs.MUTANTS:
     prop, name, edits = m[0], m[1], m[2]
     out = []
